@@ -92,7 +92,7 @@ Theorem C18_offsub_exact : forall A (same : A -> A -> bool) past h,
   /\ live A same KOnce (past ++ [OffSub h]) = live A same KOnce past.
 Proof. exact offsub_exact. Qed.
 
-(** *** The public lifecycle layer (OnConnect/OffConnect, OnDisconnect/..., all 18 families).
+(** *** The public lifecycle layer (OnConnect/OffConnect, OnDisconnect/..., all 17 families).
     Handlers are function values; the layer registers and compares fresh pointers. *)
 
 (** Full statement (what the property asks): refuted - OnX(f); OffX(f); occurrence still runs f. *)
